@@ -45,6 +45,11 @@ def load_registry():
     return R
 
 
+def registry_problems(R, eng):
+    """contracts that name a function the working tree does not have (assumed ones would otherwise go unnoticed)"""
+    return sorted({c.id for c in R.all() if c.key not in eng.repo.funcs})
+
+
 def props_of_obl(name, contract_props):
     ps = set(re.findall(r'C\d\d', name))
     return sorted(ps) if ps else list(contract_props)
